@@ -971,7 +971,7 @@ pub fn BrotliBuildMetaBlockGreedyInternal<
         }
         pos = pos.wrapping_add(cmd.copy_len() as usize);
         if cmd.copy_len() != 0 {
-            prev_byte2 = ringbuffer[(pos.wrapping_sub(2) & mask)];
+            prev_byte2 = if pos >= 2 { ringbuffer[(pos.wrapping_sub(2) & mask)] } else { 0 };
             prev_byte = ringbuffer[(pos.wrapping_sub(1) & mask)];
             if cmd.cmd_prefix_ as i32 >= 128i32 {
                 BlockSplitterAddSymbol(
